@@ -234,7 +234,6 @@ func constTablesOf(p *Prog) map[*ssa.Global]*constTable {
 	return t
 }
 
-
 // DebugTables prints the constant tables found (pgv -debug tables).
 func DebugTables(p *Prog) {
 	for g, t := range constTablesOf(p) {
